@@ -85,8 +85,8 @@ def main(argv: Optional[List[str]] = None) -> int:
 def check(prop: str, tier: str, seed: int, cap: int = 0) -> int:
     t0 = time.time()
     spec = registry.PROPS[prop]
-    if spec.get("custom"):
-        return spec["custom"](prop, tier, seed)
+    if spec.get("adapter"):
+        return check_cases(prop, tier, seed, spec)
     rng = random.Random(seed * 1000003 + int(prop[1:]))
     known = KnownFindings.load()
 
@@ -233,10 +233,131 @@ def check(prop: str, tier: str, seed: int, cap: int = 0) -> int:
     return rc
 
 
+def _run_cases_chunk(args):
+    modname, chunk = args
+    import importlib
+
+    mod = importlib.import_module(modname)
+    out = []
+    for case in chunk:
+        try:
+            out.append(mod.run_case(case))
+        except BaseException as error:
+            out.append({"harness_error": "".join(traceback.format_exception(error))[-2000:]})
+    return out
+
+
+def check_cases(prop: str, tier: str, seed: int, spec: Dict[str, Any]) -> int:
+    """Properties of pure adapters: the TLA+ module is the oracle (transcribed function), TLC
+    model-checks its own theorems exhaustively, the bounded input space is enumerated as
+    abstract cases, every case is executed on the real code and the (input, observed) pair is
+    validated by TLC against the monitor."""
+    import importlib
+    from concurrent.futures import ProcessPoolExecutor
+
+    t0 = time.time()
+    rng = random.Random(seed * 1000003 + int(prop[1:]))
+    known = KnownFindings.load()
+    mc_stats = []
+    for inst in spec.get("design", []):
+        if tier == "quick" and inst.get("tier") == "thorough":
+            continue
+        st = tlc.model_check(inst["module"], inst["cfg"], workers=inst.get("workers", 8), timeout=inst.get("timeout", 1800))
+        if not st["ok"]:
+            print("MACHINERY-FAILURE: design spec %s/%s does not satisfy its properties:\n%s"
+                  % (inst["module"], inst["cfg"], st["output_tail"]))
+            return 2
+        mc_stats.append({"module": inst["module"], "cfg": inst["cfg"], "generated": st["generated"],
+                         "distinct": st["distinct"], "wall_s": st["wall_s"]})
+    modname = "harness.adapters." + spec["adapter"]
+    mod = importlib.import_module(modname)
+    cases = mod.cases(tier, rng)
+    procs = spec.get("procs", 8)
+    if procs > 1 and len(cases) > 200:
+        size = max(50, len(cases) // (procs * 4))
+        chunks = [(modname, cases[i:i + size]) for i in range(0, len(cases), size)]
+        traces: List[Any] = []
+        with ProcessPoolExecutor(max_workers=procs) as pool:
+            for part in pool.map(_run_cases_chunk, chunks):
+                traces.extend(part)
+    else:
+        traces = _run_cases_chunk((modname, cases))
+    for case, tr in zip(cases, traces):
+        if isinstance(tr, dict):
+            print("MACHINERY-FAILURE: harness error on case %s:\n%s" % (json.dumps(case)[:300], tr["harness_error"]))
+            return 2
+    verdicts = validate_parallel(spec["monitor"], traces, batch=spec.get("batch", 1500))
+    violations = []
+    known_hits: Dict[str, int] = {}
+    for case, tr, v in zip(cases, traces, verdicts):
+        for clause, ctx in sorted(set(v["fails"])):
+            entry = known.match(prop, "%s/%s" % (clause, ctx), "any")
+            if entry is not None:
+                known_hits[entry["line"]] = known_hits.get(entry["line"], 0) + 1
+            else:
+                violations.append((case, tr, clause, ctx))
+    for line, n in sorted(known_hits.items()):
+        print("KNOWN-FINDING: property=%s %s  [seen in %d cases]" % (prop, line, n))
+    rc = 0
+    if violations:
+        os.makedirs(REPLAYS, exist_ok=True)
+        by_sig: Dict[str, Any] = {}
+        for case, tr, clause, ctx in violations:
+            by_sig.setdefault("%s/%s" % (clause, ctx), (case, tr, clause, ctx))
+        for sig, (case, tr, clause, ctx) in sorted(by_sig.items()):
+            path = os.path.join(REPLAYS, "%s-%s-%s.json" % (prop, clause, script_key(case)))
+            with open(path, "w") as f:
+                json.dump({"property": prop, "clause": clause, "ctx": ctx, "case": case, "trace": tr}, f)
+            print("VIOLATION property=%s replay=%s clause=%s ctx=%s" % (prop, path, clause, ctx))
+        rc = 1
+    distinct = len(set(script_key(c) for c in cases))
+    ev = {
+        "property_id": prop, "tier": tier, "seed": seed, "level": "model_checking",
+        "coverage": {
+            "states": max(1, sum(m["distinct"] for m in mc_stats)),
+            "transitions": max(1, sum(m["generated"] for m in mc_stats)),
+            "traces_validated_against_impl": len(traces),
+            "samples": [{"case": cases[i], "trace": traces[i]} for i in sorted(set([0, len(cases) // 2]))],
+            "evaluations": len(traces),
+            "distinct_nontrivial": distinct,
+            "rule": "one evaluation = one abstract case (input of the adapter, enumerated from the bounded space "
+                    "the TLA+ module quantifies over) executed on /repo's working tree; TLC computes the expected "
+                    "result from the case inside monitor %s and compares; distinct = distinct case (hash); every "
+                    "case exercises the adapter, so all are non-trivial" % spec["monitor"],
+            "design_model_checking": mc_stats,
+            "events_validated": sum(len(t) for t in traces),
+            "known_findings_hit": sorted(known_hits),
+            "exhaustive": tier == "thorough",
+            "monitor": "spec/props/%s.tla" % spec["monitor"],
+        },
+        "assumptions": spec.get("assumptions", registry.ADAPTER_ASSUMPTIONS),
+        "wall_s": round(time.time() - t0, 2),
+        "violations": len(set((c, x) for _, _, c, x in violations)),
+    }
+    os.makedirs(EVIDENCE, exist_ok=True)
+    with open(os.path.join(EVIDENCE, "%s.json" % prop), "w") as f:
+        json.dump(ev, f, indent=1)
+    print("%s %s: %d cases, %d events, %d design states, %d known-finding signatures, %d new violation signatures, %.1fs"
+          % (prop, tier, len(cases), ev["coverage"]["events_validated"], ev["coverage"]["states"], len(known_hits),
+             ev["violations"], ev["wall_s"]))
+    return rc
+
+
 def replay(prop: str, path: str) -> int:
     with open(path) as f:
         rep = json.load(f)
     spec = registry.PROPS[prop]
+    if spec.get("adapter"):
+        import importlib
+
+        mod = importlib.import_module("harness.adapters." + spec["adapter"])
+        tr = mod.run_case(rep["case"])
+        v = tlc.validate_traces(spec["monitor"], [tr])[0]
+        print(json.dumps({"case": rep["case"], "trace": tr, "fails": v["fails"]}, indent=1))
+        if v["fails"]:
+            print("VIOLATION property=%s replay=%s" % (prop, path))
+            return 1
+        return 0
     tr = run.run_one(rep["script"], rep["worker"], rep.get("seed", 0))
     v = tlc.validate_traces(spec["monitor"], [tr])[0]
     print(json.dumps({"worker": rep["worker"], "fails": v["fails"]}, indent=1))
